@@ -44,7 +44,7 @@ def optJ : Option JVal → J
 
 def ofRequest (r : Request) : J :=
   .obj [("method", .str (methodName r.method)), ("plural", .str r.plural), ("name", optJ r.name),
-        ("nsArg", optJ r.nsArg), ("body", optJ r.body)]
+        ("nsArg", optJ r.nsArg), ("body", optJ r.body), ("version", .str r.version)]
 
 def ofRun (r : Run) : J :=
   .obj [("action", .str (actionName r.action)), ("outcome", outcomeName r.outcome),
